@@ -176,11 +176,11 @@ pub proof fn lemma_cf_done(a: int, b: int, c: int, d: int, flip: bool, n0: int, 
     }
 }
 
-/// sign handling of simplest_in: both end points have the sign `neg` (zero counts as non-negative), (a/b, c/d) are
+/// sign handling of simplest_in: both end points have the sign `neg` (a zero end point takes the sign of the other one), (a/b, c/d) are
 /// their magnitudes in increasing order, nn/dd is the answer for the magnitudes  ==>  +-nn/dd answers (l, u)
 pub proof fn lemma_simplest_wrap(ln: int, ld: int, un: int, ud: int, neg: bool, a: int, b: int, c: int, d: int, nn: int, dd: int, rn: int)
     requires ld > 0, ud > 0, b > 0, d > 0,
-        neg ==> ln < 0 && un < 0, !neg ==> ln >= 0 && un >= 0,
+        neg ==> ln <= 0 && un <= 0, !neg ==> ln >= 0 && un >= 0,
         (a == rabs(ln) && b == ld && c == rabs(un) && d == ud) || (a == rabs(un) && b == ud && c == rabs(ln) && d == ld),
         qlt(a, b, c, d), cf_done(a, b, c, d, nn, dd), rn == (if neg { -nn } else { nn })
     ensures is_simplest_in(ln, ld, un, ud, rn, dd)
